@@ -115,11 +115,27 @@ Published(st, name) == LiveShards(st.ns[name])
 (***************************************************************************)
 (* oxia/internal/shard_manager.go:update -- for every update with an id    *)
 (* the client does not know, drop the known shards it overlaps; then store *)
+(* The overlap test is a parameter so that weaker tests can be explored as *)
+(* design mutants (OverlapEndpoint: "an endpoint of the new range lies in  *)
+(* the existing range" misses an old shard strictly inside a new, wider    *)
+(* one -- a namespace re-created with fewer shards).                       *)
 (***************************************************************************)
-ClientUpdate1(tbl, u) ==
+OverlapEndpoint(a, b) == Covers(b, a.min) \/ Covers(b, a.max)
+ClientUpdate1With(Ov(_, _), tbl, u) ==
     IF \E s \in tbl : s.id = u.id THEN {s \in tbl : s.id # u.id} \cup {u}
-    ELSE {s \in tbl : ~Overlap(u, s)} \cup {u}
-RECURSIVE ClientUpdate(_, _)
-ClientUpdate(tbl, ups) ==    \* ups: sequence of updates
-    IF ups = <<>> THEN tbl ELSE ClientUpdate(ClientUpdate1(tbl, ups[1]), Tail(ups))
+    ELSE {s \in tbl : ~Ov(u, s)} \cup {u}
+RECURSIVE ClientUpdateWith(_, _, _)
+ClientUpdateWith(Ov(_, _), tbl, ups) ==    \* ups: sequence of updates
+    IF ups = <<>> THEN tbl ELSE ClientUpdateWith(Ov, ClientUpdate1With(Ov, tbl, ups[1]), Tail(ups))
+ClientUpdate1(tbl, u) == ClientUpdate1With(Overlap, tbl, u)
+ClientUpdate(tbl, ups) == ClientUpdateWith(Overlap, tbl, ups)
+
+(* What must hold after the client applied a publication `last` (a partition): its table is exactly that  *)
+(* publication -- nothing stale survives, nothing published is missing -- hence every hash is routed to   *)
+(* exactly one shard and that shard is the one the publication names (client/server agreement).           *)
+Ranges(S) == {[id |-> s.id, min |-> s.min, max |-> s.max] : s \in S}
+TableIsLast(tbl, last) == Ranges(tbl) = Ranges(last)
+RoutesToLast(tbl, last, hashes) ==
+    \A h \in hashes : /\ Cardinality(RouteSet(tbl, h)) = 1
+                       /\ {s.id : s \in RouteSet(tbl, h)} = {s.id : s \in RouteSet(last, h)}
 =============================================================================
